@@ -142,6 +142,30 @@ func corpus(thorough bool) [][]bqlm.Clause {
 			}
 		}
 	}
+	// three clauses: one that gives rows, a fully written-out triple with an alias, and one whose only link to the rest
+	// is that alias (the alias must be known to the clauses that follow, in every order of writing)
+	{
+		P := bqlm.Term{Kind: bqlm.Const, P: bqlm.PImm}
+		firsts := []bqlm.Clause{
+			{S: bqlm.Term{Kind: bqlm.Bind, Name: "?s"}, P: bqlm.Term{Kind: bqlm.Const, P: bqlm.PT1}, O: bqlm.Term{Kind: bqlm.Bind, Name: "?o"}},
+			{S: bqlm.Term{Kind: bqlm.Bind, Name: "?s"}, P: P, O: bqlm.Term{Kind: bqlm.Bind, Name: "?o"}},
+		}
+		aliased := []bqlm.Clause{
+			{S: bqlm.Term{Kind: bqlm.Const, N: bqlm.NA}, P: P, O: bqlm.Term{Kind: bqlm.Const, N: bqlm.NB, As: "?m"}},
+			{S: bqlm.Term{Kind: bqlm.Const, N: bqlm.NA, As: "?m"}, P: P, O: bqlm.Term{Kind: bqlm.Const, N: bqlm.NB}},
+		}
+		thirds := []bqlm.Clause{
+			{S: bqlm.Term{Kind: bqlm.Bind, Name: "?m"}, P: P, O: bqlm.Term{Kind: bqlm.Bind, Name: "?z"}},
+			{S: bqlm.Term{Kind: bqlm.Bind, Name: "?z"}, P: P, O: bqlm.Term{Kind: bqlm.Bind, Name: "?m"}},
+		}
+		for _, c1 := range firsts {
+			for _, c2 := range aliased {
+				for _, c3 := range thirds {
+					out = append(out, []bqlm.Clause{c1, c2, c3})
+				}
+			}
+		}
+	}
 	// OPTIONAL second clause (relations: renaming, chanSize, processors, repetition, partition)
 	for i := range rc {
 		for j := range rc {
